@@ -2,11 +2,13 @@ import Rg.Model.Loads
 import Rg.Spec.C13
 import Rg.Proofs.Loads
 import Rg.Proofs.LoadsSpec
+import Rg.Proofs.LoadsOwn
 /-!
 # C13 — loading composes rule sets as an ordered union and fails atomically
 
 Model: `Rg/Model/Loads.lean` (`load false` = the code as it is, `load true` = the code after
-`verif/fixes/c13-*.diff`).  All theorems below hold for *every* history of requests, both variants,
+`verif/fixes/c13-*.diff`, the last of which — `c13-own-funcs.diff` — makes a rule's `Do` / `Filter` names resolve among
+the functions of the rule's own file only: `rule_funcs_are_own`, `foreign_name_is_error`).  All theorems below hold for *every* history of requests, both variants,
 unless a hypothesis says otherwise; `EngineWF` is an invariant of reachable engines (`wf_reachable`), not
 a restriction on inputs.
 
@@ -165,8 +167,8 @@ theorem model_meets_spec_groups (e : Engine) (u : List SGroup) (hv : View e u) :
 /-! ## Behaviour: every rule runs the functions of its own file (repaired loader) -/
 
 /-- **Rules behave as written.**  With the repaired loader, after any history of well-formed requests
-(`ReqOK`: converted from source, no function declared twice, every function a loaded rule needs declared in
-the rule's own file) every rule in the engine accepts and reports exactly as its own file says — calls
+(`ReqOK`: no function declared twice, every function a loaded rule needs declared in the rule's own file; any
+`PkgPath`) every rule in the engine accepts and reports exactly as its own file says — calls
 between custom functions resolved inside that file — whatever other files, successful or failed, were
 loaded before or after it.
 The code as it is does not have this property (`fA`, `fB` below); see `known_findings.json`. -/
@@ -175,12 +177,118 @@ theorem rules_behave_as_written (hist : List Req) (hok : ∀ r ∈ hist, ReqOK r
   have := behaves_final (hist := hist) (e := Engine.new) (u := []) EngineWF_new hok (by simp [Behaves, Engine.new])
   simpa using this
 
-/-- the repaired loader never panics -/
-theorem load_never_panics (e : Engine) (hw : EngineWF e) (r : Req) : ∀ p, (load true e r).2 ≠ .panic p := by
+/-- the repaired loader never panics, on any engine state (rule functions are taken from a map that holds the
+functions themselves; nothing is indexed) -/
+theorem load_never_panics (e : Engine) (r : Req) : ∀ p, (load true e r).2 ≠ .panic p := by
   intro p h
-  have := load_true_np hw r
+  have := load_true_np e r
   rw [h] at this
   exact this
+
+/-! ## A file's rules can only name the custom functions the file declares (repaired loader) -/
+
+/-- the rules an engine holds -/
+def rulesOfEngine (e : Engine) : List Rule :=
+  match e.ruleSet with
+  | none => []
+  | some rs => rs.rules
+
+/-- **rule_funcs_are_own (one call).**  Whatever state `e` the engine is in — i.e. after every history of accepted and
+rejected calls — a call that returns nil appends rules each of which comes from a rule `rd` of a filter-accepted group
+of one unit `u` of the call (the file itself or a bundle file), and every function it holds is the function compiled
+from the declaration, in that same unit, of the name `rd` gives: the `i`-th declaration of `u`, at id `base + i` with
+`base ≥` the size of the function table before the call.  No rule is ever bound to a function of an earlier call, of a
+rejected call, or of another file of the same call. -/
+theorem rule_funcs_are_own_step (e : Engine) (r : Req) (hok : (load true e r).2 = .ok ()) :
+    ∃ new, rulesOfEngine (load true e r).1 = rulesOfEngine e ++ new ∧
+      ∀ x ∈ new, ∃ pu ∈ unitsOf r, ∃ base, e.env.funcs.length ≤ base ∧
+        RuleFrom (load true e r).1.env base pu.1 r.rejected pu.2 x := by
+  rcases load_cases true e r with ⟨env', x, hl, hx⟩ | ⟨env', rset, hf, hn, hl⟩ | ⟨env', rset, cur, hf, hc, _, hl⟩
+  · rw [hl] at hok; simp only at hok; rw [hok] at hx; simp [okOut] at hx
+  · rw [hl]
+    exact ⟨rset.rules, by simp [rulesOfEngine, hn], (loadFile_own hf).2⟩
+  · rw [hl]
+    exact ⟨rset.rules, by simp [rulesOfEngine, hc], (loadFile_own hf).2⟩
+
+/-- every rule of `e` holds only functions compiled from declarations of the unit (of a call in `H`) it was loaded from -/
+def OwnedBy (e : Engine) (H : List Req) : Prop :=
+  ∀ x ∈ rulesOfEngine e, ∃ r ∈ H, ∃ pu ∈ unitsOf r, ∃ base, RuleFrom e.env base pu.1 r.rejected pu.2 x
+
+theorem ownedBy_step {e : Engine} {H : List Req} (r : Req) (h : OwnedBy e H) :
+    OwnedBy (load true e r).1 (H ++ [r]) := by
+  have hx := load_ext true e r
+  have old : ∀ x ∈ rulesOfEngine e, ∃ q ∈ H ++ [r], ∃ pu ∈ unitsOf q, ∃ base,
+      RuleFrom (load true e r).1.env base pu.1 q.rejected pu.2 x := by
+    intro x hxm
+    obtain ⟨q, hq, pu, hpu, base, hr⟩ := h x hxm
+    exact ⟨q, List.mem_append_left _ hq, pu, hpu, base, hr.ext hx⟩
+  cases hout : (load true e r).2 with
+  | ok u =>
+    cases u
+    obtain ⟨new, hnew, hown⟩ := rule_funcs_are_own_step e r hout
+    intro x hxm
+    rw [hnew, List.mem_append] at hxm
+    rcases hxm with hxm | hxm
+    · exact old x hxm
+    · obtain ⟨pu, hpu, base, _, hr⟩ := hown x hxm
+      exact ⟨r, by simp, pu, hpu, base, hr⟩
+  | err x =>
+    have hrs := load_ruleSet_of_not_ok (fixed := true) (e := e) (r := r) (by rw [hout]; rfl)
+    intro x hxm
+    have : rulesOfEngine (load true e r).1 = rulesOfEngine e := by unfold rulesOfEngine; rw [hrs]
+    rw [this] at hxm
+    exact old x hxm
+  | panic p => exact absurd hout (load_never_panics e r p)
+
+theorem ownedBy_final : ∀ (hist : List Req) (e : Engine) (H : List Req), OwnedBy e H →
+    OwnedBy (finalEngine true e hist) (H ++ hist)
+  | [], e, H, h => by simpa [finalEngine] using h
+  | r :: rs, e, H, h => by
+    have := ownedBy_final rs _ _ (ownedBy_step r h)
+    simpa [finalEngine, List.append_assoc] using this
+
+/-- **rule_funcs_are_own.**  After every history of Load / LoadFromIR calls (successful or not, in any order, with any
+bundles and filters) every rule in the engine comes from a rule `rd` of an accepted group of one unit `u` of one call of
+the history, and every function id it holds is the id of the function compiled from the declaration, in `u` itself, of
+the name `rd` gives to `Do` / `Filter`.
+The code as it is does not have this property (`fLeft` below). -/
+theorem rule_funcs_are_own (hist : List Req) :
+    ∀ x ∈ rulesOfEngine (finalEngine true Engine.new hist), ∃ r ∈ hist, ∃ pu ∈ unitsOf r, ∃ base,
+      RuleFrom (finalEngine true Engine.new hist).env base pu.1 r.rejected pu.2 x := by
+  have := ownedBy_final hist Engine.new [] (by intro x hx; simp [rulesOfEngine, Engine.new] at hx)
+  simpa [OwnedBy] using this
+
+/-- **foreign_name_is_error.**  A call one of whose rules (in a group the filter accepts; in the file itself or in a
+bundle file) names a function that rule's own file does not declare fails with an error — on every engine state, hence
+whatever files were accepted or rejected before and whatever they left in the engine-wide name table. -/
+theorem foreign_name_is_error (e : Engine) (r : Req) (hf : ReqForeign r) : ∃ x, (load true e r).2 = .err x := by
+  cases hout : (load true e r).2 with
+  | err x => exact ⟨x, rfl⟩
+  | panic p => exact absurd hout (load_never_panics e r p)
+  | ok u =>
+    exfalso
+    cases u
+    rcases load_cases true e r with ⟨env', x, hl, hx⟩ | ⟨env', rset, hfl, _, _⟩ | ⟨env', rset, cur, hfl, _, _, _⟩
+    · rw [hl] at hout; simp only at hout; rw [hout] at hx; simp [okOut] at hx
+    · exact (loadFile_own hfl).1 hf
+    · exact (loadFile_own hfl).1 hf
+
+/-- the rule itself is refused with "can't find a compiled version of …", independently of the engine-wide table -/
+theorem foreign_rule_is_nofunc (env : Env) (own : List (Nat × Nat)) (pkg : Nat) (g : Nat × Nat) (rd : RuleDecl)
+    (n : Nat) (hn : rd.doFn = some n ∨ rd.filtFn = some n) (hl : ownLookup own n = none) :
+    loadRule true env own pkg g rd = .err .nofunc :=
+  loadRule_foreign ⟨n, hn, hl⟩
+
+/-- **foreign_name_is_nofunc.**  For a file without bundle imports whose declarations compile, whose accepted groups
+have distinct names and no unloadable rule — nothing else is wrong with it — the error is the one that names the missing
+function (`nofunc` = "can't find a compiled version of …"), on every engine state. -/
+theorem foreign_name_is_nofunc (e : Engine) (r : Req) (hb : r.bundles = [])
+    (hconv : (!r.isIR && r.unit.convErr) = false)
+    (hc : (compileFilterFuncs true e.env r.unit).2 = .ok ())
+    (hbad : ∀ g ∈ acceptedDecls 0 r.rejected r.unit.groups, ∀ rl ∈ g.rules, rl.bad = false)
+    (hnd : (names (acceptedOfUnit 0 r.rejected r.unit)).Nodup) (hf : UnitForeign 0 r.rejected r.unit) :
+    (load true e r).2 = .err .nofunc :=
+  load_foreign_nofunc e r hb hconv hc hbad hnd hf
 
 /-- a run of an engine that satisfies the invariant is the property's run over the union -/
 theorem run_of_inv {e : Engine} {u : List SGroup} {al : Bool} (hi : Inv e u al) (probe : List (Nat × Nat)) :
@@ -249,7 +357,7 @@ theorem model_meets_spec_from (probe : List (Nat × Nat)) : ∀ (hist : List Req
       unfold vOutOf
       simp only
       cases hout : (load true e r).2 with
-      | panic p => exact absurd hout (load_never_panics e hi.wf r p)
+      | panic p => exact absurd hout (load_never_panics e r p)
       | ok x =>
         cases x
         have hfree := ok_collisionFree (r := r) hi.view (by rw [hout]; rfl)
@@ -290,6 +398,19 @@ def fDangling : Req :=
 /-- precompiled IR listing group 5 twice -/
 def fDup : Req :=
   ⟨true, 0, ⟨5, false, false, [], [⟨5, 3, []⟩, ⟨5, 3, []⟩]⟩, [], []⟩
+/-- precompiled IR whose rule names `do_6` (declared by file A) without declaring it -/
+def fLeft : Req :=
+  ⟨true, 0, ⟨6, false, false, [], [⟨6, 3, [⟨0, 2, false, 61, some 6, none, false, 4⟩]⟩]⟩, [], []⟩
+/-- a file that registers `do_6` and is then rejected: its second declaration does not compile -/
+def fHalf : Req :=
+  ⟨false, 0, ⟨7, false, false, [⟨6, .doF, 301, true, none, false⟩, ⟨8, .str, 302, true, none, true⟩],
+    [⟨7, 9, [⟨0, 1, false, 71, some 6, none, false, 10⟩]⟩]⟩, [], []⟩
+/-- `fLeft` importing a bundle whose file declares `do_6` -/
+def fLeftB : Req :=
+  ⟨true, 0, ⟨6, false, false, [], [⟨6, 3, [⟨0, 2, false, 61, some 6, none, false, 4⟩]⟩]⟩,
+    [⟨1, false, [⟨8, false, false, [⟨6, .doF, 401, true, none, false⟩], []⟩]⟩], []⟩
+/-- file A as precompiled IR with another `PkgPath` -/
+def fPkg : Req := { fA with isIR := true, pkgPath := 1 }
 def probe : List (Nat × Nat) := [(0, 1), (0, 2)]
 
 def obs (fixed : Bool) (hist : List Req) : List (Req × StepObs) :=
@@ -329,6 +450,41 @@ example : (load false Engine.new fDangling).2 = .panic .index := by decide
 example : (load false (load false Engine.new fA).1 fDangling).2 = .ok () := by decide
 example : (load true Engine.new fDangling).2 = .err .nofunc := by decide
 example : (load true (load true Engine.new fA).1 fDangling).2 = .err .nofunc := by decide
+
+-- a name left over from another file (c13-own-funcs.diff): precompiled IR whose rule names `do_6` without declaring it
+-- (`fLeft`), after file A — which declares `do_6` — was accepted; after a file that registered `do_6` and was then
+-- rejected (`fHalf`: its second declaration does not compile); next to a bundle file that declares it (`fLeftB`)
+example : (load false (load false Engine.new fA).1 fLeft).2 = .ok () := by decide            -- as is: accepted …
+example : ((runHist false probe Engine.new [fA, fLeft]).map (·.run))[1]? =                        -- … and runs A's function
+    some (.reports [⟨0, 1, (0, 1), 10, .trace [102, 101]⟩, ⟨0, 2, (0, 6), 4, .trace [102, 101]⟩] none) := by decide
+example : violations probe (obs false [fA, fLeft]) = [(1, .unresolvedAccepted), (1, .reports)] := by decide
+example : (load true (load true Engine.new fA).1 fLeft).2 = .err .nofunc := by decide
+example : (load true Engine.new fHalf).2 = .err .compile := by decide
+example : (load true Engine.new fHalf).1.env.lookup (gorules, 6) = some 0 := by decide          -- the name is still bound
+example : (load false (load false Engine.new fHalf).1 fLeft).2 = .ok () := by decide
+example : (load true (load true Engine.new fHalf).1 fLeft).2 = .err .nofunc := by decide
+example : (load false Engine.new fLeftB).2 = .ok () := by decide
+example : (load true Engine.new fLeftB).2 = .err .nofunc := by decide
+example : specHolds probe (obs true [fA, fHalf, fLeft, fLeftB]) = true := by decide
+-- the hypotheses of `foreign_name_is_error` / `foreign_name_is_nofunc` are met by `fLeft` (on every engine)
+example : ReqForeign fLeft :=
+  ⟨(0, fLeft.unit), List.mem_cons_self .., ⟨6, 3, [⟨0, 2, false, 61, some 6, none, false, 4⟩]⟩, by decide,
+    ⟨0, 2, false, 61, some 6, none, false, 4⟩, by decide, 6, Or.inl rfl, by decide⟩
+example (e : Engine) : (load true e fLeft).2 = .err .nofunc :=
+  foreign_name_is_nofunc e fLeft rfl rfl rfl (by decide) (by decide)
+    ⟨⟨6, 3, [⟨0, 2, false, 61, some 6, none, false, 4⟩]⟩, by decide,
+      ⟨0, 2, false, 61, some 6, none, false, 4⟩, by decide, 6, Or.inl rfl, by decide⟩
+example : ReqForeign fLeftB :=
+  ⟨(0, fLeftB.unit), List.mem_cons_self .., ⟨6, 3, [⟨0, 2, false, 61, some 6, none, false, 4⟩]⟩, by decide,
+    ⟨0, 2, false, 61, some 6, none, false, 4⟩, by decide, 6, Or.inl rfl, by decide⟩
+-- `rule_funcs_are_own` is about something: after A and C the engine's rules hold A's function (id 1 = `do_6`) and
+-- nothing else; a file that declares its functions loads under any `PkgPath` and binds its own `do_6` (the code as it
+-- is binds function 0 of the engine, the string helper: D29)
+example : (rulesOfEngine (finalEngine true Engine.new [fA, fHalf, fC])).map (·.doFn) = [some 1, none] := by decide
+example : (load true Engine.new fPkg).2 = .ok () ∧ (load false Engine.new fPkg).2 = .ok () := by decide
+example : (rulesOfEngine (load true Engine.new fPkg).1).map (·.doFn) = [some 1] := by decide
+example : (rulesOfEngine (load false Engine.new fPkg).1).map (·.doFn) = [some 0] := by decide
+example : ReqOK fPkg := by unfold ReqOK UnitOK UnitClosed; decide
 
 -- duplicate group inside one IR file
 example : (load false Engine.new fDup).2 = .panic .explicit := by decide
